@@ -87,8 +87,27 @@ def witness_cases():
         {"op": "hbatch", "ds": "a", "ents": many[3:14]},
         {"op": "hchanges", "ds": "a", "reader": "h1", "limit": 3}, {"op": "hchanges", "ds": "a", "reader": "h2", "limit": 7, "latest": True},
         {"op": "hchanges", "ds": "a", "reader": "hr", "reverse": True, "limit": 6, "ld": True}, {"op": "hchanges", "ds": "a", "reader": "hr", "reverse": True, "limit": 50},
-        {"op": "hchanges", "ds": "a", "since": 40, "limit": 2}] + fin}
-    return races + [http] + [
+        {"op": "hchanges", "ds": "a", "since": 40, "limit": 2},
+        # positions beyond the end up to the largest a token can carry
+        {"op": "hchanges", "ds": "a", "since_str": "9223372036854775807", "limit": 2},
+        {"op": "hchanges", "ds": "a", "since_str": "9223372036854775808", "limit": 0},
+        {"op": "hchanges", "ds": "a", "since_str": "18446744073709551615", "limit": 3, "latest": True}] + fin}
+    # the same feed read through a PROXY dataset whose remote hub is this hub (real loopback HTTP, ProxyDataset.StreamChanges*):
+    # plain and JSON-LD, forward / latest-only / reverse, paged with the tokens the proxy hands out
+    proxy = {"datasets": ["a"], "proxies": {"p": "a"}, "ops": [
+        {"op": "mkproxy", "ds": "p", "id": "a"}, {"op": "hbatch", "ds": "a", "ents": many},
+        {"op": "hchanges", "ds": "p", "reader": "p1", "limit": 4, "ld": True}, {"op": "hchanges", "ds": "p", "reader": "p1", "limit": 0, "ld": True},
+        {"op": "hbatch", "ds": "a", "ents": many[3:14]},
+        {"op": "hchanges", "ds": "p", "reader": "p1", "limit": 3, "ld": True}, {"op": "hchanges", "ds": "p", "reader": "p1", "limit": 0},
+        {"op": "hchanges", "ds": "p", "reader": "p2", "limit": 7, "latest": True, "ld": True},
+        {"op": "hchanges", "ds": "p", "reader": "p2", "limit": 7, "latest": True},
+        {"op": "hchanges", "ds": "p", "reader": "pr", "reverse": True, "limit": 6}, {"op": "hchanges", "ds": "p", "reader": "pr", "reverse": True, "limit": 50},
+        {"op": "hchanges", "ds": "p", "since": 40, "limit": 2}] + fin}
+    # a POST whose last entity has no id: the batches of 10 before it are stored, the partial last batch is refused as a whole
+    # and the request does not answer 200; then the valid part is posted again
+    hrefused = {"datasets": ["a"], "ops": [{"op": "hbatch", "ds": "a", "ents": many[:14], "reject": True}] + fin + [{"op": "seqs", "ds": "a"}]
+                + [{"op": "hbatch", "ds": "a", "ents": many[10:14]}] + fin + [{"op": "seqs", "ds": "a"}]}
+    return races + [http, proxy, hrefused] + [
         # F02a: identical element repeated inside one batch (new id)
         {"datasets": ["a"], "ops": [{"op": "batch", "ds": "a", "ents": [sc.with_id("e1", A), sc.with_id("e1", A)]}] + fin},
         # F02a: existing id
@@ -137,6 +156,17 @@ def gen_case(rng, nw, rich=True):
             if rng.chance(1, 2):
                 d = sc.DS_NAMES[rng.below(nds)]
                 ops.append({"op": "changes", "ds": d, "reader": name, "limit": lim, "latest": latest})
+    proxies = {}
+    if not any(w.get("reject") for w in writes) and rng.chance(1, 4):
+        # a proxy dataset pointing at one of the datasets of this hub: every read of it answers like the read of its target
+        tgt = sc.DS_NAMES[rng.below(nds)]
+        proxies = {"p": tgt}
+        ops.insert(0, {"op": "mkproxy", "ds": "p", "id": tgt})
+        lim = rng.choice([1, 2, 3, 0])
+        for _ in range(4):
+            ops.append({"op": "hchanges", "ds": "p", "reader": "px", "limit": lim, "ld": rng.chance(1, 2)})
+        ops.append({"op": "hchanges", "ds": "p", "reader": "py", "limit": rng.choice([2, 0]), "latest": True, "ld": rng.chance(1, 2)})
+        ops.append({"op": "hchanges", "ds": "p", "reader": "pz", "reverse": True, "limit": rng.choice([1, 2, 0])})
     for d in sc.DS_NAMES[:nds]:
         for _ in range(2):
             ops.append({"op": "changes", "ds": d, "reader": "rx", "limit": 0})
@@ -156,7 +186,10 @@ def gen_case(rng, nw, rich=True):
         for _ in range(4):
             ops.append({"op": "changes_rev", "ds": d, "reader": "rr", "limit": lim})
         ops.append({"op": "seqs", "ds": d})     # the sequence numbers really present (see storecases.rank_maps)
-    return {"datasets": sc.DS_NAMES[:nds], "ops": ops}
+    if proxies:
+        # a proxy re-parses the remote answer with the stream parser, which drops the nil-valued properties only the Go API can store
+        ops = sc.no_null(ops)
+    return {"datasets": sc.DS_NAMES[:nds], "ops": ops, "proxies": proxies}
 
 
 def gen(rng, tier):
